@@ -213,6 +213,39 @@ func scenarioCorpus() []scenario {
 			}
 		}, fixed("add", "more")},
 		{"branch-hash-then-reset-same-pid", func(k *Walker) { k.Init(); twoCommits(k) }, fixed("reset", "--soft", "HEAD@{1}")},
+		{"commit-identical-to-a-stored-one", func(k *Walker) {
+			// the commit about to be made already exists, byte for byte (same snapshot, parent, identity, message and
+			// second), and another branch names it: whatever goes wrong, that object is not this command's to remove
+			k.W.GoitBin = k.W.C.GoitVFS
+			k.W.Env = map[string]string{"VERIF_NOW": "1700000000"}
+			k.Init()
+			commitBase(k)
+			k.W.Write("a.txt", []byte("a2\n"))
+			k.W.Goit("add", "a.txt")
+			k.W.Goit("commit", "-m", "second")
+			k.W.Goit("branch", "keep")
+			k.W.Goit("reset", "--soft", "HEAD@{1}")
+			k.W.Env = nil
+		}, fixed("commit", "-m", "second")},
+		{"commit-with-read-only-files", func(k *Walker) {
+			// Goit's own files without write permission (a repository restored from a read-only medium): replacing them
+			// still has to be one step
+			k.Init()
+			twoCommits(k)
+			k.W.Write("a.txt", []byte("a3\n"))
+			k.W.Goit("add", "a.txt")
+			for _, f := range []string{".goit/refs/heads/main", ".goit/HEAD", ".goit/index", ".goit/config", ".goit/logs/HEAD"} {
+				k.W.Chmod(f, 0o444)
+			}
+		}, fixed("commit", "-m", "third")},
+		{"switch-with-read-only-files", func(k *Walker) {
+			k.Init()
+			twoCommits(k)
+			k.W.Goit("branch", "side")
+			for _, f := range []string{".goit/refs/heads/main", ".goit/HEAD", ".goit/index", ".goit/refs/heads/side"} {
+				k.W.Chmod(f, 0o444)
+			}
+		}, fixed("switch", "side")},
 		{"branch-create-then-update-same-pid", func(k *Walker) { k.Init(); twoCommits(k) }, fixed("branch", "feat")},
 		{"switch-create-then-update-same-pid", func(k *Walker) { k.Init(); twoCommits(k) }, fixed("switch", "-c", "feat")},
 		{"first-commit-then-update-same-pid", func(k *Walker) { k.Init(); k.W.Write("a.txt", []byte("a\n")); k.W.Goit("add", "a.txt") }, fixed("commit", "-m", "first")},
@@ -632,8 +665,8 @@ func runFaults(c *core.Ctx, w *core.World, name string, argv []string, randomHis
 			errnos = append(errnos, "ENOSPC")
 		}
 		switch o.Op {
-		case "open", "create", "openw", "readfile", "createtemp":
-			errnos = append(errnos, "EACCES")
+		case "open", "create", "openw", "readfile", "createtemp", "readdir":
+			errnos = append(errnos, "EACCES") // (readdir: a directory that may be searched but not listed)
 		}
 		// one more errno per operation, of the kind a caller may single out and "handle": a rename across file systems,
 		// an interrupted read, too many open files, a read-only or full-quota file system. ENOENT and EEXIST are NOT
